@@ -50,6 +50,11 @@ func genSpec(t *rapid.T, label string) world.ChainSpec {
 	n := rapid.IntRange(0, 4).Draw(t, label+"inters")
 	kinds := []string{"p256", "p384", "p256", "rsa2048"}
 	s.Inters = append(s.Inters, kinds[:n]...)
+	if n >= 1 {
+		// cross-signed top CA: the same issuing certificates continue to two different roots
+		s.Cross = rapid.IntRange(0, 2).Draw(t, label+"cross") == 0
+		s.CrossAlt = rapid.Bool().Draw(t, label+"crossalt")
+	}
 	s.Precert = rapid.Bool().Draw(t, label+"pre")
 	if s.Precert {
 		s.PreIssuer = rapid.IntRange(0, 2).Draw(t, label+"pi") == 0
@@ -460,6 +465,9 @@ func (r *rig) submit(v *harness.Verdict, s *world.ChainSpec) {
 	}
 	if len(b.Full) >= 5 {
 		v.Class("long-chain")
+	}
+	if b.Spec.Cross {
+		v.Class("cross-signed-path")
 	}
 }
 
